@@ -54,8 +54,7 @@ class Admonition(DirectivePlugin):
         for name in self.SUPPORTED_NAMES:
             directive.register(name, self.parse)
 
-        assert md.renderer is not None
-        if md.renderer.NAME == "html":
+        if md.renderer and md.renderer.NAME == "html":
             md.renderer.register("admonition", render_admonition)
             md.renderer.register("admonition_title", render_admonition_title)
             md.renderer.register("admonition_content", render_admonition_content)
